@@ -41,13 +41,14 @@ Inductive mtrans (P : params) : mstate -> mstate -> Prop :=
                                           (if status =? MK_DECLARED then winners else k_winners (ms_mkt x)) rts))
 | MT_deposit x creator depositor amount bk idx effs dmkt :
     k_status (ms_mkt x) = MK_ACTIVE -> 0 < amount -> pr_h_mindep P <= amount ->
+    0 <= dec_round_int (dec_mulint (pr_h_fee P) amount) <= amount ->        (* both payments of the deposit succeeded *)
     init_participation (ms_book x) (pr_ob_maxpart P) depositor amount (dec_round_int (dec_mulint (pr_h_fee P) amount)) = Some (bk, idx, effs) ->
     mtrans P x (mstate_upd x (ms_mkt x) bk (ms_bets x) (ms_pending x)
                   (ms_deps x ++ [{| d_creator := creator; d_depositor := depositor; d_mkt := dmkt; d_pidx := idx;
                                     d_amount := amount; d_wcount := 0; d_wtotal := 0 |}]) (ms_wds x))
 | MT_withdraw x signer depositor pidx mode amount d amt bk effs dmkt :
     findb (dep_is depositor pidx) (ms_deps x) = Some d -> d_wcount d < pr_h_maxw P ->
-    calc_withdrawal (ms_book x) depositor pidx mode (d_wtotal d) amount = Some amt ->
+    calc_withdrawal (ms_book x) depositor pidx mode (d_wtotal d) amount = Some amt -> 0 <= amt ->
     withdraw_participation (ms_book x) pidx amt = Some (bk, effs) ->
     mtrans P x (mstate_upd x (ms_mkt x) bk (ms_bets x) (ms_pending x)
                   (upd (dep_is depositor pidx)
@@ -194,6 +195,14 @@ Proof.
   destruct (a <? pr_h_mindep (c_prm s)) eqn:E2; [discriminate|]. apply Z.ltb_ge in E2. split; assumption.
 Qed.
 
+Lemma apply_pay_nonneg b subs f t a r b' subs' : apply_effects b subs (Pay f t a :: r) = Some (b', subs') ->
+  0 <= a /\ exists b1, pay b f t a = Some b1 /\ apply_effects b1 subs r = Some (b', subs').
+Proof.
+  cbn [apply_effects]. destruct (pay b f t a) as [b1|] eqn:E; [|discriminate]. intros H.
+  split; [|exists b1; split; [reflexivity|exact H]].
+  unfold pay in E. destruct (a <? 0) eqn:Ea; [discriminate|]. apply Z.ltb_ge in Ea. exact Ea.
+Qed.
+
 Lemma house_deposit_core_lrel s c d m a g s' :
   0 < a -> pr_h_mindep (c_prm s) <= a -> house_deposit_core s c d m a g = Some s' -> lrel (c_prm s) s s'.
 Proof.
@@ -201,9 +210,13 @@ Proof.
   destruct (get_ms s m) as [x|] eqn:Hg; [|discriminate].
   destruct (negb (k_status (ms_mkt x) =? MK_ACTIVE)) eqn:EA; [discriminate|]. apply negb_false_true, Z.eqb_eq in EA.
   destruct (init_participation _ _ _ _ _) as [[[bk idx] effs]|] eqn:EI; [|discriminate].
-  destruct (apply_effects _ _ _) as [[bank' subs']|]; [|discriminate]. inv H.
+  destruct (apply_effects _ _ _) as [[bank' subs']|] eqn:EAP; [|discriminate]. inv H.
   eapply lrel_upd; [exact Hg| |reflexivity].
-  apply mr_one. eapply MT_deposit; eassumption.
+  apply mr_one. eapply MT_deposit; try eassumption.
+  (* the two payments: liquidity to the pool, fee to the house fee collector *)
+  unfold init_participation in EI. dmatchS EI. inv EI.
+  destruct (apply_pay_nonneg _ _ _ _ _ _ _ _ EAP) as [H1 (b1 & _ & EA2)].
+  destruct (apply_pay_nonneg _ _ _ _ _ _ _ _ EA2) as [H2 _]. lia.
 Qed.
 
 Lemma withdraw_core_lrel s sg d m pidx mo a ob s' amt : withdraw_core s sg d m pidx mo a ob = Some (s', amt) -> lrel (c_prm s) s s'.
@@ -215,9 +228,10 @@ Proof.
   destruct (calc_withdrawal _ _ _ _ _ _) as [amt0|] eqn:EW; [|discriminate].
   destruct (if ob then _ else _) as [grants|]; [|discriminate].
   destruct (withdraw_participation _ _ _) as [[bk effs]|] eqn:EP; [|discriminate].
-  destruct (apply_effects _ _ _) as [[bank' subs']|]; [|discriminate]. inv H.
+  destruct (apply_effects _ _ _) as [[bank' subs']|] eqn:EA; [|discriminate]. inv H.
   eapply lrel_upd; [exact Hg| |reflexivity].
-  apply mr_one. eapply MT_withdraw; eassumption.
+  apply mr_one. eapply MT_withdraw; try eassumption.
+  unfold withdraw_participation in EP. dmatchS EP; inv EP; destruct (apply_pay_nonneg _ _ _ _ _ _ _ _ EA) as [H1 _]; exact H1.
 Qed.
 
 Lemma wager_prepare_mult s c tk u a sm so mu al ky ot :
